@@ -129,7 +129,8 @@ Lemma read_loop_S fx umagic f st rest :
         else match do_skip st ROT_SIZE None rest with
              | (st', true) =>                                             (* finish = true: the loop exits BEFORE curPos/crc advance *)
                  (do_commit {| r_pos := r_pos st; r_crc := r_crc st; r_ts := r_ts st; r_eoff := r_eoff st';
-                               r_cpos := r_cpos st; r_ev := r_ev st' |}, ENone)
+                               r_cpos := r_cpos st; r_ev := r_ev st';
+                               r_rot := Some (crc_update (r_crc st) (takez ROT_SIZE rest)) |}, ENone)
              | (st', false) => (st', ESkipMismatch)
              end
     | LUser body n =>
@@ -140,7 +141,7 @@ Lemma read_loop_S fx umagic f st rest :
         else
           let rb := pad4 rb0 in
           let st' := {| r_pos := r_pos st + rb; r_crc := crc_update (r_crc st) (takez rb rest); r_ts := r_ts st;
-                        r_eoff := newpos; r_cpos := r_cpos st; r_ev := EvApply (r_eoff st) body :: r_ev st |} in
+                        r_eoff := newpos; r_cpos := r_cpos st; r_ev := EvApply (r_eoff st) body :: r_ev st; r_rot := r_rot st |} in
           read_loop fx umagic f st' (dropz rb rest)
     end.
 Proof. reflexivity. Qed.
@@ -149,7 +150,7 @@ Proof. reflexivity. Qed.
 Lemma read_loop_user fx u f st b rest : user_magic_ok u -> len b < two32 -> r_eoff st = r_pos st ->
   read_loop fx u (S f) st (fr u b ++ rest) =
   read_loop fx u f {| r_pos := r_pos st + len (fr u b); r_crc := crc_update (r_crc st) (fr u b); r_ts := r_ts st;
-                      r_eoff := r_pos st + len (fr u b); r_cpos := r_cpos st; r_ev := EvApply (r_pos st) b :: r_ev st |} rest.
+                      r_eoff := r_pos st + len (fr u b); r_cpos := r_cpos st; r_ev := EvApply (r_pos st) b :: r_ev st; r_rot := r_rot st |} rest.
 Proof.
   intros Hu Hb He. rewrite read_loop_S. rewrite classify_frame by assumption.
   pose proof (len_nonneg b). pose proof (pad4_bounds (8 + len b)). pose proof (len_nonneg (aligned rest)).
@@ -194,7 +195,7 @@ Qed.
 Lemma read_loop_crc_ok fx u f st ts pos rest : 0 <= ts < two32 -> 0 <= r_crc st < two32 -> r_eoff st = r_pos st ->
   read_loop fx u (S f) st (enc_crc ts pos (r_crc st) ++ rest) =
   read_loop fx u f {| r_pos := r_pos st + 20; r_crc := crc_update (r_crc st) (enc_crc ts pos (r_crc st)); r_ts := ts;
-                      r_eoff := r_pos st + 20; r_cpos := r_cpos st; r_ev := EvSkip (r_pos st) 20 :: r_ev st |} rest.
+                      r_eoff := r_pos st + 20; r_cpos := r_cpos st; r_ev := EvSkip (r_pos st) 20 :: r_ev st; r_rot := r_rot st |} rest.
 Proof.
   intros Hts Hc He. rewrite read_loop_S. rewrite classify_crc by assumption. rewrite Z.eqb_refl. simpl negb. cbv iota.
   unfold do_skip. rewrite He, Z.eqb_refl. change CRC_SIZE with (len (enc_crc ts pos (r_crc st))).
@@ -276,10 +277,10 @@ Fixpoint run_items (u : Z) (st : rst) (items : list item) : rst :=
   | [] => st
   | IUser b :: r =>
       run_items u {| r_pos := r_pos st + len (fr u b); r_crc := crc_update (r_crc st) (fr u b); r_ts := r_ts st;
-                     r_eoff := r_pos st + len (fr u b); r_cpos := r_cpos st; r_ev := EvApply (r_pos st) b :: r_ev st |} r
+                     r_eoff := r_pos st + len (fr u b); r_cpos := r_cpos st; r_ev := EvApply (r_pos st) b :: r_ev st; r_rot := r_rot st |} r
   | ICrc ts pos :: r =>
       run_items u {| r_pos := r_pos st + 20; r_crc := crc_update (r_crc st) (enc_crc ts pos (r_crc st)); r_ts := ts;
-                     r_eoff := r_pos st + 20; r_cpos := r_cpos st; r_ev := EvSkip (r_pos st) 20 :: r_ev st |} r
+                     r_eoff := r_pos st + 20; r_cpos := r_cpos st; r_ev := EvSkip (r_pos st) 20 :: r_ev st; r_rot := r_rot st |} r
   end.
 
 Lemma run_items_pos u items : forall st, r_pos (run_items u st items) = r_pos st + size_of u items.
